@@ -1,1 +1,408 @@
+// Package c16: session keys cannot exceed their spend limit or allowed actions.
+//
+// Independent ledger per (master, session grant): every session-signed
+// transaction is delivered alone in a block; what left the master is measured
+// as the difference of the master's committed balances (audit view) and added
+// to the ledger of the spend window the harness tracks by itself from header
+// times. The code's own SpendUsed counter is never consulted. Liveness of
+// grants (revoked, expired) and the allow-path rules are decided by the
+// harness's own reading of the documented rules.
 package c16
+
+import (
+	"fmt"
+	"math"
+	"math/rand/v2"
+
+	"github.com/gnolang/gno/gno.land/pkg/gnoland"
+	"github.com/gnolang/gno/gno.land/pkg/sdk/vm"
+	"github.com/gnolang/gno/tm2/pkg/amino"
+	"github.com/gnolang/gno/tm2/pkg/crypto"
+	"github.com/gnolang/gno/tm2/pkg/std"
+
+	"verifharness/checks/c15/txkit"
+	"verifharness/internal/chainsim"
+	"verifharness/internal/hist"
+	"verifharness/internal/vf"
+)
+
+func init() {
+	vf.Register(&vf.Check{
+		ID:    "C16",
+		Level: "exploration",
+		Rule: "case = one session-signed transaction inside a history of session create / revoke / revoke-all / re-create, header times stepping across spend-period and expiry boundaries (±1 s), " +
+			"and session-signed txs (bank sends in ugnot and a realm denomination, calls with attached coins, storage-deposit growth and release, realm pay-backs to the master, MsgRun scripts spending the master's coins through a banker, " +
+			"multi-message txs mixing allowed / disallowed / failing messages, second signers paying or not paying the fee, zero fees, fees in a realm denomination); scripted boundary histories plus seeded random histories; " +
+			"oracle = per-grant ledger fed by committed balance differences of the master, own window tracking, own allow-path matcher; non-trivial = the tx is signed by at least one session; distinct by (chain, height, label)",
+		Run: run,
+	})
+}
+
+type plan struct {
+	id    string
+	kind  string
+	steps int
+}
+
+func run(c *vf.Ctx) {
+	plans := []plan{{"L", "limits", 0}, {"T", "time-grants", 0}, {"F", "deposits-fuzz", c.N(90, 400)}}
+	for i := 0; i < c.N(0, 5); i++ {
+		plans = append(plans, plan{fmt.Sprintf("Z%d", i), "fuzz", 450})
+	}
+	c.Parallel(len(plans), 6, 1600, func(i int, rng *rand.Rand) { runChain(c, plans[i], rng) })
+	c.Assume("what left a master in a session-signed tx is measured as max(0, balance before − balance after) per denomination with that tx alone in its block: coins returned to the master inside the same tx (deposit releases, realm pay-backs) net against its outflow, so the ledger is a lower bound of the gross outflow")
+	c.Assume("spend windows are tracked as documented: a window starts at the session's creation time; the first charged tx at header time ≥ start+period starts a new window at its own header time")
+	c.Assume("account numbers and sequences used for signing are read from committed state (a client's query); every transaction of these histories is correctly signed — forgery is C15's subject")
+	c.RequireCounter("ledger_checks", 60)
+	c.RequireCounter("session_txs_with_outflow", 40)
+	c.RequireCounter("over_limit_attempts", 8)
+	c.RequireCounter("over_limit_rejected_without_fee", 3)
+	c.RequireCounter("failed_session_txs_fee_charged", 3)
+	c.RequireCounter("period_resets_in_model", 2)
+	c.RequireCounter("must_reject:expired-session", 2)
+	c.RequireCounter("must_reject:revoked-session", 3)
+	c.RequireCounter("must_reject:not-in-allow-paths", 5)
+	c.RequireCounter("must_reject:always-denied", 3)
+	c.RequireCounter("prefix_guard_cases", 1)
+	c.RequireCounter("deposit_growth_txs", 2)
+	c.RequireCounter("deposit_refused_by_limit", 1)
+	c.RequireCounter("exact_limit_reached", 2)
+	c.RequireCounter("outflow_observed_tok", 1)
+	c.RequireCounter("verdict:ok", 40)
+}
+
+type world struct {
+	m   []*acct // alice bob carol dave
+	out *acct   // erin: plain recipient
+}
+
+func runChain(c *vf.Ctx, p plan, rng *rand.Rand) {
+	sm := &sim{c: c, id: p.id, rng: rng}
+	var w world
+	e, err := txkit.Start(chainsim.Options{}, func(ch *chainsim.Chain) gnoland.GnoGenesisState {
+		st := hist.Genesis(ch)
+		dep := ch.Acc("alice")
+		for _, x := range []struct{ path, name string }{{VaultPath, "vault"}, {VaultXPath, "vaultx"}, {VaultSub, "sub"}} {
+			st.Txs = append(st.Txs, chainsim.GenesisAddPkgTx(dep, x.path, map[string]string{x.name + ".gno": vaultSrc(x.name)}))
+			st.Balances = append(st.Balances, gnoland.Balance{Address: hist.RealmAddr(x.path), Amount: std.Coins{{Denom: "ugnot", Amount: 1_000_000_000_000}}})
+		}
+		st.Balances = append(st.Balances, gnoland.Balance{Address: ch.Acc("erin").Addr, Amount: std.Coins{{Denom: "ugnot", Amount: 1_000_000}}})
+		return st
+	})
+	if err != nil {
+		panic(err)
+	}
+	defer e.Ch.Close()
+	sm.e = e
+	for _, n := range hist.Users {
+		w.m = append(w.m, &acct{name: n, key: txkit.FromChainsim(e.Ch.Acc(n))})
+	}
+	w.out = &acct{name: "erin", key: txkit.FromChainsim(e.Ch.Acc("erin"))}
+	// every master gets realm-denomination coins
+	for _, a := range w.m {
+		sm.masterTx(2, "mint tok", a, 60_000_000, vm.NewMsgCall(a.key.Addr, nil, hist.PeerPath, "Mint", []string{a.key.Addr.String(), "tok", "1000000000"}))
+	}
+	c.Logf("chain %s (%s): start at height %d", p.id, p.kind, e.Ch.Height)
+	switch p.kind {
+	case "limits":
+		scenarioLimits(sm, &w)
+	case "time-grants":
+		scenarioPeriod(sm, &w)
+		scenarioExpiry(sm, &w)
+		scenarioGrants(sm, &w)
+	case "deposits-fuzz":
+		scenarioDeposits(sm, &w)
+		fuzz(sm, &w, p.steps)
+	case "fuzz":
+		fuzz(sm, &w, p.steps)
+	}
+	c.Logf("chain %s (%s): done at height %d", p.id, p.kind, e.Ch.Height)
+}
+
+func (sm *sim) newKey(tag string) *txkit.Key {
+	sm.nkeys++
+	name := fmt.Sprintf("c16-%s-%s-%d", sm.id, tag, sm.nkeys)
+	if sm.nkeys%2 == 0 {
+		return txkit.Ed(name)
+	}
+	return txkit.Secp(name)
+}
+
+func ug(n int64) map[string]int64 { return map[string]int64{"ugnot": n} }
+
+func feeU(n int64) std.Coin { return std.Coin{Denom: "ugnot", Amount: n} }
+
+const (
+	gSend = 5_000_000
+	gCall = 60_000_000
+)
+
+func scenarioLimits(sm *sim, w *world) {
+	to := w.out.key.Addr
+	// many small spends approaching the limit: the last one lands at limit−1, limit, limit+1
+	for vi, v := range []int64{-1, 0, 1} {
+		m := w.m[vi]
+		const L = 100_000
+		s := sm.create(2, m, fmt.Sprintf("exact%+d", v), sm.newKey("x"), ug(L), 0, 0, []string{"bank/send", "vm/exec:" + VaultPath})
+		spent := int64(0)
+		for i := 0; i < 6; i++ {
+			amt := int64(1 + sm.rng.IntN(3000))
+			sm.tx(1+int64(sm.rng.IntN(4)), "small-spend", gSend, feeU(6000), part{by: s, m: mSend(to, ug(amt))})
+			spent += 6000 + amt
+		}
+		x := L - spent
+		sm.tx(2, fmt.Sprintf("last-spend-to-limit%+d", v), gSend, feeU(6000), part{by: s, m: mSend(to, ug(x-6000+v))})
+		switch v {
+		case 1:
+			sm.tx(2, "spend-exact-remainder", gSend, feeU(6000), part{by: s, m: mSend(to, ug(x-6000))})
+		case -1:
+			sm.tx(2, "spend-exact-remainder", gCall, feeU(1), part{by: s, m: mCall(VaultPath, "Noop", 0)})
+		}
+		if s.used["ugnot"] == L {
+			sm.c.Count("exact_limit_reached", 1)
+		}
+		sm.tx(2, "beyond-limit-fee-1", gCall, feeU(1), part{by: s, m: mCall(VaultPath, "Noop", 0)})
+		sm.tx(2, "beyond-limit-fee-1", gSend, feeU(1), part{by: s, m: mSend(to, ug(1))})
+	}
+	// amounts at the edge of int64: sums in the limit arithmetic must not wrap
+	{
+		s := sm.create(2, w.m[3], "overflow", sm.newKey("o"), ug(9_000_000_000_000_000_000), 0, 0, []string{"*"})
+		sm.tx(2, "huge-send", gSend, feeU(6000), part{by: s, m: mSend(to, ug(math.MaxInt64))})
+		sm.tx(2, "huge-send-sum-wraps", gSend, feeU(6000), part{by: s, m: mSend(to, ug(math.MaxInt64-3000))}, part{by: s, m: mSend(to, ug(math.MaxInt64-3000))})
+		sm.tx(2, "huge-fee", gSend, feeU(math.MaxInt64), part{by: s, m: mSend(to, ug(10))})
+		sm.tx(2, "normal-after-huge", gSend, feeU(6000), part{by: s, m: mSend(to, ug(10))})
+	}
+	// failing transactions still pay the fee, and the fee counts
+	d := w.m[3]
+	s := sm.create(2, d, "burn", sm.newKey("b"), ug(10*20_000+500), 0, 0, []string{"*"})
+	for i := 0; i < 13; i++ {
+		sm.tx(2, "failing-after-partial-spend", gCall, feeU(20_000), part{by: s, m: mSend(to, ug(100))}, part{by: s, m: mCall(VaultPath, "Fail", 0)})
+	}
+	sm.tx(2, "after-burn-small-fee", gSend, feeU(400), part{by: s, m: mSend(to, ug(100))})
+	sm.tx(2, "after-burn-small-fee", gSend, feeU(400), part{by: s, m: mSend(to, ug(101))})
+	// two denominations, each with its own cap; a fee paid in the realm denomination
+	a := w.m[0]
+	s = sm.create(2, a, "two-denoms", sm.newKey("t"), map[string]int64{TokDenom: 50, "ugnot": 100_000}, 0, 0, []string{"*"})
+	sm.tx(2, "tok-send", gSend, feeU(6000), part{by: s, m: mSend(to, map[string]int64{TokDenom: 20})})
+	sm.tx(2, "tok-send-over", gSend, feeU(6000), part{by: s, m: mSend(to, map[string]int64{TokDenom: 31})})
+	sm.tx(2, "tok-send", gSend, feeU(6000), part{by: s, m: mSend(to, map[string]int64{TokDenom: 30})})
+	sm.tx(2, "tok-send-over", gSend, feeU(6000), part{by: s, m: mSend(to, map[string]int64{TokDenom: 1})})
+	sm.tx(2, "both-denoms", gSend, feeU(6000), part{by: s, m: mSend(to, map[string]int64{TokDenom: 0, "ugnot": 10})})
+	s = sm.create(2, a, "tok-only", sm.newKey("t"), map[string]int64{TokDenom: 20}, 0, 0, []string{"*"})
+	tokFee := func(n int64) std.Coin { return std.Coin{Denom: TokDenom, Amount: n} }
+	sm.tx(2, "fee-in-tok", gSend, tokFee(5), part{by: s, m: mSend(to, map[string]int64{TokDenom: 10})})
+	sm.tx(2, "fee-in-tok-over", gSend, tokFee(5), part{by: s, m: mSend(to, map[string]int64{TokDenom: 1})})
+	sm.tx(2, "fee-denom-not-in-limit", gSend, feeU(6000), part{by: s, m: mSend(to, map[string]int64{TokDenom: 1})})
+	sm.tx(2, "send-denom-not-in-limit", gSend, tokFee(1), part{by: s, m: mSend(to, ug(1))})
+	sm.tx(2, "fee-in-tok", gSend, tokFee(4), part{by: s, m: mSend(to, map[string]int64{TokDenom: 1})})
+	// a session that does not pay the fee; a session without any limit
+	b := w.m[1]
+	s = sm.create(2, a, "not-payer", sm.newKey("n"), ug(1000), 0, 0, []string{"*"})
+	sm.tx(2, "other-signer-pays", gSend, feeU(6000), part{own: b, m: mSend(to, ug(5))}, part{by: s, m: mSend(to, ug(600))})
+	sm.tx(2, "other-signer-pays-over", gSend, feeU(6000), part{own: b, m: mSend(to, ug(5))}, part{by: s, m: mSend(to, ug(401))})
+	sm.tx(2, "other-signer-pays", gSend, feeU(6000), part{own: b, m: mSend(to, ug(5))}, part{by: s, m: mSend(to, ug(400))})
+	sm.tx(2, "session-pays-other-signer-too", gSend, feeU(6000), part{by: s, m: mSend(to, ug(1))}, part{own: b, m: mSend(to, ug(5))})
+	s = sm.create(2, a, "no-limit", sm.newKey("n"), map[string]int64{}, 0, 0, []string{"*"})
+	sm.tx(2, "no-limit-zero-spend", gCall, feeU(60_000), part{own: b, m: mCall(VaultPath, "Noop", 0)}, part{by: s, m: mCall(VaultPath, "Noop", 0)})
+	sm.tx(2, "no-limit-attached-coins", gCall, feeU(60_000), part{own: b, m: mCall(VaultPath, "Noop", 0)}, part{by: s, m: mCall(VaultPath, "Noop", 1)})
+	sm.tx(2, "no-limit-pays-fee", gCall, feeU(60_000), part{by: s, m: mCall(VaultPath, "Noop", 0)})
+	// coins attached to calls and a script spending through a banker
+	c := w.m[2]
+	s = sm.create(2, c, "attached", sm.newKey("a"), ug(200_000), 0, 0, []string{"vm/exec", "vm/run"})
+	sm.tx(2, "call-attached-coins", gCall, feeU(60_000), part{by: s, m: mCall(VaultPath, "Noop", 30_000)})
+	sm.tx(2, "run-banker-send", gCall, feeU(60_000), part{by: s, m: mRunPay(to, 20_000, 0)})
+	sm.tx(2, "run-banker-send-over", gCall, feeU(20_000), part{by: s, m: mRunPay(to, 10_001, 0)})
+	sm.tx(2, "run-banker-send", gCall, feeU(5_000), part{by: s, m: mRunPay(to, 3_000, 0)})
+}
+
+// at returns the advance needed to put the next block at header time t.
+func (sm *sim) at(t int64) int64 { return t - sm.e.Now.Unix() }
+
+func scenarioPeriod(sm *sim, w *world) {
+	to := w.out.key.Addr
+	a := w.m[0]
+	const P, L = 60, 50_000
+	s := sm.create(2, a, "periodic", sm.newKey("p"), ug(L), P, 0, []string{"*"})
+	spend := func(adv int64, label string, amt int64) {
+		sm.tx(adv, label, gSend, feeU(6000), part{by: s, m: mSend(to, ug(amt))})
+	}
+	for i := 0; i < 5; i++ {
+		spend(2, "window-fill", 2000)
+	}
+	r0 := s.reset
+	spend(sm.at(r0+P-1), "one-second-before-period-end", 5000) // 40000+11000 > L
+	spend(1, "at-period-end", 5000)                              // new window
+	r1 := s.reset
+	for i := 0; i < 4; i++ {
+		spend(2, "window-fill", 2000)
+	}
+	spend(sm.at(r1+P-1), "one-second-before-period-end", 2000)
+	spend(8, "late-after-period-end", 2000) // window starts here, not at r1+P
+	r2 := s.reset
+	for i := 0; i < 5; i++ {
+		spend(1, "window-fill", 2000)
+	}
+	spend(sm.at(r1+2*P)+1, "aligned-boundary-is-not-a-reset", 2000) // r1+2P+1 < r2+P
+	spend(sm.at(r2+P-1), "one-second-before-period-end", 2000)
+	spend(1, "at-period-end", 2000)
+	// rejected attempts must not start a window: idle for three periods, then an over-limit attempt, then a normal spend
+	spend(3*P, "huge-after-idle", L)
+	spend(1, "after-rejected-attempt", 2000)
+	if !sm.dead && s.windows < 3 {
+		panic(fmt.Sprintf("period scenario saw %d window changes", s.windows))
+	}
+}
+
+func scenarioExpiry(sm *sim, w *world) {
+	to := w.out.key.Addr
+	b := w.m[1]
+	s := sm.create(2, b, "expiring", sm.newKey("e"), ug(1_000_000), 0, 30, []string{"*"})
+	spend := func(adv int64, label string) {
+		sm.tx(adv, label, gSend, feeU(6000), part{by: s, m: mSend(to, ug(10))})
+	}
+	spend(2, "well-before-expiry")
+	spend(sm.at(s.expires-1), "one-second-before-expiry")
+	spend(1, "at-expiry")
+	spend(1, "one-second-after-expiry")
+	spend(1000, "long-after-expiry")
+	// expiry and period together
+	s = sm.create(2, b, "expiring-periodic", sm.newKey("e"), ug(20_000), 10, 25, []string{"*"})
+	for i := 0; i < 12; i++ {
+		sm.tx(3, "periodic-until-expiry", gSend, feeU(6000), part{by: s, m: mSend(to, ug(3000))})
+	}
+}
+
+func scenarioGrants(sm *sim, w *world) {
+	to := w.out.key.Addr
+	a, b, c, d := w.m[0], w.m[1], w.m[2], w.m[3]
+	big := ug(1_000_000_000)
+	fc := feeU(60_000)
+	sa := sm.create(2, a, "only-vault", sm.newKey("g"), big, 0, 0, []string{"vm/exec:" + VaultPath})
+	sm.tx(2, "allowed-exact-path", gCall, fc, part{by: sa, m: mCall(VaultPath, "Noop", 7)})
+	sm.tx(2, "allowed-sub-path", gCall, fc, part{by: sa, m: mCall(VaultSub, "Noop", 7)})
+	sm.tx(2, "prefix-without-slash", gCall, fc, part{by: sa, m: mCall(VaultXPath, "Noop", 7)})
+	sm.c.Count("prefix_guard_cases", 1)
+	sm.tx(2, "other-realm", gCall, fc, part{by: sa, m: mCall(hist.PeerPath, "BoxAdd", 0, "1")})
+	sm.tx(2, "parent-path", gCall, fc, part{by: sa, m: mCall(hist.StorePath, "Pop", 0)})
+	sm.tx(2, "send-not-granted", gSend, feeU(6000), part{by: sa, m: mSend(to, ug(5))})
+	sm.tx(2, "run-not-granted", gCall, fc, part{by: sa, m: mRunPay(to, 5, 0)})
+	sm.tx(2, "mixed-allowed-then-disallowed", gCall, fc, part{by: sa, m: mCall(VaultPath, "Noop", 3)}, part{by: sa, m: mCall(VaultXPath, "Noop", 3)})
+	sm.tx(2, "mixed-disallowed-then-allowed", gCall, fc, part{by: sa, m: mSend(to, ug(5))}, part{by: sa, m: mCall(VaultPath, "Noop", 3)})
+	sm.tx(2, "allowed-state-change", gCall, fc, part{by: sa, m: mCall(VaultPath, "Touch", 0)})
+	sm.tx(2, "other-signers-message-is-free", gCall, fc, part{by: sa, m: mCall(VaultPath, "Noop", 3)}, part{own: b, m: mSend(to, ug(5))})
+	sm.tx(2, "other-signer-pays-session-disallowed", gCall, fc, part{own: b, m: mSend(to, ug(5))}, part{by: sa, m: mCall(VaultXPath, "Noop", 3)})
+
+	sb := sm.create(2, b, "send-and-run", sm.newKey("g"), big, 0, 0, []string{"bank/send", "vm/run"})
+	sm.tx(2, "send-granted", gSend, feeU(6000), part{by: sb, m: mSend(to, ug(5))})
+	sm.tx(2, "run-granted", gCall, fc, part{by: sb, m: mRunPay(to, 5, 0)})
+	sm.tx(2, "call-not-granted", gCall, fc, part{by: sb, m: mCall(VaultPath, "Noop", 0)})
+
+	sc := sm.create(2, c, "wildcard", sm.newKey("g"), big, 0, 0, []string{"*"})
+	other := sm.newKey("esc")
+	sm.tx(2, "wildcard-create-session", gSend, feeU(6000), part{by: sc, m: mAuth("create_session", other)})
+	sm.tx(2, "wildcard-revoke-own-session", gSend, feeU(6000), part{by: sc, m: mAuth("revoke_session", sc.key)})
+	sm.tx(2, "wildcard-revoke-all", gSend, feeU(6000), part{by: sc, m: mAuth("revoke_all_sessions", nil)})
+	sm.tx(2, "wildcard-add-package", 200_000_000, feeU(200_000), part{by: sc, m: mAddPkg("gno.land/r/verif/byses" + sm.id)})
+	sm.tx(2, "wildcard-mixed-send-then-auth", gSend, feeU(6000), part{by: sc, m: mSend(to, ug(5))}, part{by: sc, m: mAuth("revoke_all_sessions", nil)})
+	sm.tx(2, "wildcard-anything-else", gCall, fc, part{by: sc, m: mCall(VaultXPath, "Noop", 9)}, part{by: sc, m: mSend(to, ug(5))}, part{by: sc, m: mRunPay(to, 5, 0)})
+
+	sd := sm.create(2, d, "any-call", sm.newKey("g"), big, 0, 0, []string{"vm/exec"})
+	sm.tx(2, "bare-exec-any-realm", gCall, fc, part{by: sd, m: mCall(VaultXPath, "Noop", 1)})
+	sm.tx(2, "bare-exec-send-not-granted", gSend, feeU(6000), part{by: sd, m: mSend(to, ug(5))})
+
+	// revoke one; the others of the same master live on
+	sb2 := sm.create(2, b, "second-of-bob", sm.newKey("g"), big, 0, 0, []string{"bank/send"})
+	sm.revoke(2, sb)
+	sm.tx(2, "revoked", gSend, feeU(6000), part{by: sb, m: mSend(to, ug(5))})
+	sm.tx(2, "sibling-of-revoked", gSend, feeU(6000), part{by: sb2, m: mSend(to, ug(5))})
+	// the same key granted again with a tighter grant: only the new grant counts
+	sb3 := sm.create(2, b, "regrant", sb.key, ug(20_000), 0, 0, []string{"bank/send"})
+	sm.tx(2, "regranted-within", gSend, feeU(6000), part{by: sb3, m: mSend(to, ug(5))})
+	sm.tx(2, "regranted-old-permission", gCall, fc, part{by: sb3, m: mRunPay(to, 5, 0)})
+	sm.tx(2, "regranted-over-new-limit", gSend, feeU(6000), part{by: sb3, m: mSend(to, ug(9000))})
+	// revoke in the same block, just before the session's tx
+	sm.revokeThenUseSameBlock(sb2, to)
+	// revoke-all
+	sc2 := sm.create(2, c, "second-of-carol", sm.newKey("g"), big, 0, 0, []string{"*"})
+	sm.tx(2, "before-revoke-all", gSend, feeU(6000), part{by: sc2, m: mSend(to, ug(5))})
+	sm.revokeAll(2, c, []*sess{sc, sc2})
+	sm.tx(2, "revoked-all", gSend, feeU(6000), part{by: sc, m: mSend(to, ug(5))})
+	sm.tx(2, "revoked-all", gSend, feeU(6000), part{by: sc2, m: mSend(to, ug(5))})
+	sm.tx(2, "other-master-unaffected", gCall, fc, part{by: sd, m: mCall(VaultPath, "Noop", 1)})
+}
+
+// revokeThenUseSameBlock: [master-signed revoke, session-signed send] in one block.
+func (sm *sim) revokeThenUseSameBlock(s *sess, to crypto.Address) {
+	if sm.dead {
+		return
+	}
+	m := s.master
+	v := sm.e.View
+	body := txkit.Body{Msgs: []std.Msg{txkit.RevokeSession(m.key.Addr, s.key)}, Fee: txkit.Fee(gSend, 5001)}
+	_, num, seq, _ := txkit.Account(v, m.key.Addr)
+	rev := amino.MustMarshal(std.Tx{Msgs: body.Msgs, Fee: body.Fee, Signatures: []std.Signature{{PubKey: m.key.Pub, Signature: m.key.SignRaw(txkit.SignBytes(body, chainsim.ChainID, num, seq))}}})
+	use := sm.buildTx(gSend, feeU(6000), []part{{by: s, m: mSend(to, ug(777))}})
+	before := bal(v, m, "ugnot")
+	o := sm.e.Block(2, rev, use)
+	s.alive = false
+	sm.logf("block [revoke %s ; session send] -> revoke ok=%v, session tx ante=%v ok=%v %s", s.name, o.Res[0].OK, chainsim.AntePassed(o.Res[1]), o.Res[1].OK, txkit.Clip(o.Res[1].ErrString, 100))
+	sm.c.Case(fmt.Sprintf("%s/%d/revoke-then-use-same-block", sm.id, o.Height), true)
+	sm.c.Count("must_reject:revoked-session", 1)
+	if !o.Res[0].OK {
+		panic("same-block revoke failed: " + o.Res[0].ErrString)
+	}
+	delta := before - bal(o.View, m, "ugnot")
+	if chainsim.AntePassed(o.Res[1]) || delta != 5001 {
+		sm.c.Violation("revoked-session-accepted:same-block", map[string]any{"chain": sm.id, "height": o.Height, "session": s.describe(), "master_delta": delta, "revoke_fee": 5001, "history": sm.tail()},
+			"chain %s height %d: session %s was revoked by the first tx of the block; its tx later in the block passed=%v and the master lost %d ugnot (revoke fee is 5001)", sm.id, o.Height, s.name, chainsim.AntePassed(o.Res[1]), delta)
+		sm.dead = true
+	}
+}
+
+func scenarioDeposits(sm *sim, w *world) {
+	a, b := w.m[0], w.m[1]
+	to := w.out.key.Addr
+	// measure what growing the vault by 40 entries locks (master-signed probe)
+	b0 := bal(sm.e.View, a, "ugnot")
+	o := sm.masterTx(2, "probe grow", a, gCall, vm.NewMsgCall(a.key.Addr, nil, VaultPath, "Grow", []string{"40"}))
+	dep := b0 - bal(o.View, a, "ugnot") - (gCall/1000 + 1)
+	sm.masterTx(2, "probe shrink", a, gCall, vm.NewMsgCall(a.key.Addr, nil, VaultPath, "Shrink", []string{"40"}))
+	if !sm.dead && dep < 150_000 {
+		panic(fmt.Sprintf("deposit probe: %d", dep))
+	}
+	sm.logf("deposit for Grow(40) measured as %d", dep)
+	fee := int64(60_000)
+	s := sm.create(2, a, "churn", sm.newKey("d"), ug(3*fee+dep+dep/2), 0, 0, []string{"vm/exec:" + VaultPath})
+	grow := func(label string) *outcome {
+		return sm.tx(2, label, gCall, feeU(fee), part{by: s, m: mCall(VaultPath, "Grow", 0, "40")})
+	}
+	if r := grow("deposit-grow"); r.ok {
+		sm.c.Count("deposit_growth_txs", 1)
+	}
+	sm.tx(2, "deposit-release", gCall, feeU(fee), part{by: s, m: mCall(VaultPath, "Shrink", 0, "40")})
+	if r := grow("deposit-grow-again"); !r.ok && !r.rejected {
+		sm.c.Count("deposit_refused_by_limit", 1)
+	} else if r.ok {
+		sm.c.Count("deposit_growth_txs", 1)
+	}
+	grow("deposit-grow-again")
+	// churn with a roomy limit: release does not give budget back
+	s = sm.create(2, a, "churn-roomy", sm.newKey("d"), ug(4*fee+2*dep+dep/4), 0, 0, []string{"vm/exec:" + VaultPath})
+	for i := 0; i < 3; i++ {
+		r := sm.tx(2, "deposit-grow", gCall, feeU(fee), part{by: s, m: mCall(VaultPath, "Grow", 0, "40")})
+		if r.ok {
+			sm.c.Count("deposit_growth_txs", 1)
+		} else if !r.rejected {
+			sm.c.Count("deposit_refused_by_limit", 1)
+		}
+		sm.tx(2, "deposit-release", gCall, feeU(fee), part{by: s, m: mCall(VaultPath, "Shrink", 0, "40")})
+	}
+	// pay-backs from a realm to the master do not restore budget
+	s = sm.create(2, b, "payback", sm.newKey("d"), ug(100_000), 0, 0, []string{"*"})
+	for i := 0; i < 3; i++ {
+		sm.tx(2, "realm-pays-master-back", gCall, feeU(20_000), part{by: s, m: mCall(VaultPath, "PayBack", 0, b.key.Addr.String(), "50000")})
+	}
+	sm.tx(2, "spend-after-paybacks", gSend, feeU(5_000), part{by: s, m: mSend(to, ug(30_000))})
+	sm.tx(2, "spend-after-paybacks", gSend, feeU(5_000), part{by: s, m: mSend(to, ug(30_000))})
+	sm.tx(2, "spend-after-paybacks", gSend, feeU(5_000), part{by: s, m: mSend(to, ug(30_000))})
+}
